@@ -43,14 +43,35 @@ def lEv (i : Nat) (ts : Int) (kind : Int) : Event :=
     limit keeps the older event and leaves out the newer one. -/
 theorem C12_kv_per_value_order_witness :
     let s := applyTasks init [.add (lEv 1 1700000100 7), .add (lEv 2 1700000200 1)]
-    (planFilter { kinds := some [7, 1], limit := some 1 } none).map (executePlan s) = some [(lEv 1 1700000100 7).id] := by
+    (planFilter { kinds := some [7, 1], limit := some 1 } none 20).map (executePlan s) = some [(lEv 1 1700000100 7).id] := by
   decide +kernel
 
-/-- **Finding `kv-no-max-limit-cap`** — the plan's limit is the client's number, whatever the
-    configured maximum (here a client asking for 10^6). -/
-theorem C12_kv_no_cap_witness :
-    (planFilter { kinds := some [1], limit := some 1000000 } none).map (·.limit) = some (some 1000000) := by
-  decide +kernel
+/-- **C12 (LMDB, the cap)** — a plan made for a client's REQ (no internal `default_limit`) always
+    carries a limit, and it never exceeds `max_limit`: neither a huge number nor `null` lifts it.
+    (Before the `fix:` commit the plan carried the client's number as is — findings
+    `kv-no-max-limit-cap`, `kv-limit-null-unlimited`.) -/
+theorem C12_kv_cap (f : Filter) (ml : Nat) (p : Plan) (h : planFilter f none ml = some p) :
+    ∃ n, p.limit = some n ∧ n ≤ ml ∧ (∀ l, f.limit = some l → n ≤ l) := by
+  unfold planFilter at h
+  cases hs : planShape f with
+  | none => simp [hs] at h
+  | some sh =>
+    simp only [hs, Option.map_some, Option.some.injEq] at h
+    subst h
+    cases hl : f.limit with
+    | none => exact ⟨ml, by simp, Nat.le_refl _, by intro l h'; cases h'⟩
+    | some l => exact ⟨min l ml, by simp, Nat.min_le_right _ _, by intro l' h'; cases h'; exact Nat.min_le_left _ _⟩
+
+/-- hence at most `max_limit` events are delivered for one filter of a REQ -/
+theorem C12_kv_at_most_max (s : Store) (f : Filter) (ml : Nat) (p : Plan) (h : planFilter f none ml = some p) :
+    (executePlan s p).length ≤ ml := by
+  obtain ⟨n, hn, hle, _⟩ := C12_kv_cap f ml p h
+  exact Nat.le_trans (C12_kv_count s p n hn) hle
+
+-- a client asking for 10^6, and one sending null, under max_limit = 20
+example : (planFilter { kinds := some [1], limit := some 1000000 } none 20).map (·.limit) = some (some 20) := by decide +kernel
+example : (planFilter { kinds := some [1], limit := none } none 20).map (·.limit) = some (some 20) := by decide +kernel
+example : (planFilter { kinds := some [1], limit := some 0 } none 20).map (·.limit) = some (some 0) := by decide +kernel
 
 end NostrRelay.KV
 
@@ -116,7 +137,7 @@ theorem effectiveLimit_le (fs : List Filter) (d m : Nat) : effectiveLimit fs d m
   unfold effectiveLimit
   suffices ∀ acc, acc ≤ d → fs.foldl (fun acc f =>
       let l := if filterRaises f then some m else f.limit
-      match l with | some (n+1) => min (n+1) d | _ => acc) acc ≤ d from this d (Nat.le_refl d)
+      match l with | some n => min n d | none => acc) acc ≤ d from this d (Nat.le_refl d)
   induction fs with
   | nil => intro acc h; simpa using h
   | cons f rest ih =>
@@ -170,9 +191,15 @@ theorem C12_sql_no_truncation (s : State) (fs : List Filter) (d m : Nat)
   rw [List.take_of_length_le hlen]
   exact (mem_sortTsDesc e _).mpr he
 
-/-- **Finding `sql-limit-zero-is-max`** — `limit: 0` is falsy in `if filter_obj.limit:`, so the
-    statement carries the default maximum instead of 0. -/
-theorem C12_sql_limit_zero_witness :
-    effectiveLimit [{ kinds := some [1], limit := some 0 }] 20 20 = 20 := by decide +kernel
+/-- **C12 (SQL, limit 0)** — a single filter with limit 0 gets `LIMIT 0`: nothing is sent.  (Before the
+    `fix:` commit `if filter_obj.limit:` replaced 0 by the default maximum — finding `sql-limit-zero-is-max`.) -/
+theorem C12_sql_limit_zero (s : State) (f : Filter) (d m : Nat) (h0 : f.limit = some 0) (hr : filterRaises f = false) :
+    answer s [f] d m = [] := by
+  have hl : effectiveLimit [f] d m = 0 := by simp [effectiveLimit, hr, h0]
+  have := (C12_sql_limit s [f] d m).1
+  rw [hl] at this
+  exact List.eq_nil_of_length_eq_zero (Nat.le_zero.mp this)
+
+example : effectiveLimit [{ kinds := some [1], limit := some 0 }] 20 20 = 0 := by decide +kernel
 
 end NostrRelay.SQL
